@@ -138,7 +138,18 @@ def work(case):
                            dict(then=text, now=obj.to_json_str()))
         for r in comp + halt + upd:
             published.append((r, r.to_json_str()))
+    if fail is None:
+        fail = finished_stays_out(case)
     return out, nontrivial, fail
+
+
+def finished_stays_out(case):
+    """the lifecycle is terminal also for runs this instance only HEARD finished (memory enabled and not overflowing):
+    an identifier a peer reported completed or halted never becomes active here afterwards (C05's bookkeeping; the
+    known singleton case D17 keeps its own signature there and is not taken over)"""
+    import pC05
+    _, _, f = pC05.work(case)
+    return f if f and f["signature"] == "finished-run-active-again" else None
 
 
 def run(ctx, res):
